@@ -77,6 +77,9 @@ def case_strategy(draw: Any, carrier: str) -> Dict[str, Any]:
     return {
         "carrier": carrier, "sched": draw(st.integers(0, 999)),
         "deflate": draw(st.booleans()), "limit": limit, "messages": msgs,
+        # websocket_ping_interval: the server's own pings land between (never inside) the
+        # frames the application's messages travel in
+        "server_ping": draw(st.sampled_from([None, None, None, 0.5, 7.0])),
         "seg": draw(segmentation()),
         "app": draw(st.sampled_from(["echo", "echo", "collect"])),
         "app_messages": draw(st.lists(st.one_of(
@@ -332,6 +335,8 @@ def programs_for(case: Dict[str, Any]) -> Dict[str, list]:
 
 def run_case(case: Dict[str, Any]) -> CaseInfo:
     cfg = {"keep_alive_timeout": T_BIG, "websocket_max_message_size": case["limit"]}
+    if case.get("server_ping") is not None:
+        cfg["websocket_ping_interval"] = case["server_ping"]
     programs = programs_for(case)
 
     async def sc(env: Any) -> Any:
@@ -346,6 +351,8 @@ def run_case(case: Dict[str, Any]) -> CaseInfo:
     near = any(abs(size_of(m) - case["limit"]) <= 1 for m in msgs)
     classes = ["carrier=" + case["carrier"], "deflate=%s" % case["deflate"],
                "seg=" + case["seg"]["mode"], "app=" + case["app"]]
+    if case.get("server_ping") is not None:
+        classes.append("server_pings")
     if fragmented:
         classes.append("fragmented")
     if near:
